@@ -56,8 +56,57 @@ def _returned_iterate(ret: ast.Return):
     return v
 
 
+def relative_scale_fresh(ctx):
+    """The fixed-point helpers promise points that meet the absolute / RELATIVE tolerance they were given: relative to the returned point.  The
+    scale `atol + rtol |x|` that divides the tested step therefore has to be computed from the iterates of the tested step (inside the loop,
+    from the evaluation whose result is returned).  A scale frozen at the initial guess accepts a step of size rtol |x0|: from a guess 1e4
+    times larger than the fixed point the returned point misses the tolerance by that factor (and from a guess near zero only atol is left)."""
+    rep = ctx.rep
+    for rel, fname, tols, kind in HELPERS:
+        if kind != "raises":
+            continue
+        fn = ctx.repo.get(rel, fname)
+        C = f"{rel}:{fname}"
+        cfg = CFG(fn)
+        rd = ReachingDefs(cfg)
+        loops = [w for w in ast.walk(fn) if isinstance(w, (ast.For, ast.While))]
+        if not loops:
+            raise AnalysisError(f"{C}: iteration loop vanished")
+        loop = loops[0]
+        inloop = {id(x) for x in ast.walk(loop)}
+        rets = _returns(cfg)
+        p0 = fn.args.args[0].arg
+        # evaluations of the map inside the loop: v = fun(...)
+        evals = [n for n in cfg.nodes if n.kind == "stmt" and isinstance(n.ast, ast.Assign) and id(n.ast) in inloop
+                 and any(isinstance(c, ast.Call) and isinstance(c.func, ast.Name) and c.func.id == p0 for c in ast.walk(n.ast.value))]
+        if not evals:
+            raise AnalysisError(f"{C}: no evaluation of the map inside the loop")
+        tests = [n for n in cfg.nodes if n.kind == "test" and id(n.ast) in inloop and any(isinstance(w, ast.Name) and w.id.startswith("error") for w in ast.walk(n.ast))]
+        if not tests:
+            raise AnalysisError(f"{C}: convergence test on `error` not found")
+        ok_all = True
+        for t in tests[:1]:
+            nodes, params = rd.backward_slice(t)
+            # definitions feeding the test that mention rtol
+            rt = [n for n in nodes if n.kind == "stmt" and n.ast is not None and any(isinstance(w, ast.Name) and w.id == "rtol" for w in ast.walk(n.ast))]
+            for n in rt:
+                fresh = id(n.ast) in inloop and any(e in rd.backward_slice(n)[0] for e in evals)
+                if fresh:
+                    rep.ok("C22.R6", C, f"`{norm_src(n.ast)[:70]}`: the relative tolerance is scaled by the iterates of the tested step")
+                else:
+                    ok_all = False
+                    rep.bad("C22.R6", C, n.ast, f"`{norm_src(n.ast)[:80]}` scales the relative tolerance by a quantity that is not the iterate of the tested step "
+                            "(it is computed outside the loop / not from the map's evaluation): a step is accepted when it is small relative to that frozen value, so from an initial "
+                            "guess much larger than the fixed point the helper returns, without raising, a point that misses the tolerance it was given by the same factor",
+                            f"{rel}:{n.lineno}")
+            if not rt:
+                rep.bad("C22.R6", C, t.ast, "the convergence test is not fed by any scale that involves rtol", f"{rel}:{t.lineno}")
+
+
 def run(ctx):
     rep = ctx.rep
+    rep.rule("C22.R6", "fixed-point helpers scale the relative tolerance by the iterates of the tested step, not by a frozen value", 2)
+    relative_scale_fresh(ctx)
     rep.rule("C22.R1", "tolerances influence the success return", 6)
     rep.rule("C22.R2", "returned iterate is the tested one", 3)
     rep.rule("C22.R3", "non-convergence cannot reach the normal exit silently", 3)
@@ -466,6 +515,11 @@ MUTANTS += [
                 (AF, "            dx = x[i] - xx[i]  # recompute dx as exactly representable number\n", ""),
                 (AF, "            dx = x2[i] - x1[i]  # recompute dx as exactly representable number\n", ""),
                 (AF, "            dx = (x1[i] - xx[i]).imag\n", "")], expect="C22.R4"),
+]
+MUTANTS += [
+    dict(id="c22-r6-seed", canary=True, what="[seeded by sub-agent] momentum helper: tolerance scale computed once from the initial guess", file=DSV,
+         edits=[(DSV, "        scale = atol + np.maximum(np.abs(yk), np.abs(xk1)) * rtol\n", ""),
+                (DSV, "    error_old = np.inf\n    converged = False\n", "    error_old = np.inf\n    converged = False\n    scale = atol + np.abs(x0) * rtol\n")], expect="C22.R6"),
 ]
 NEUTRAL = [
     dict(id="c22-n-r5", canary=True, what="only the redundant copies in the error expression removed; the map still gets a copy", file=DSV,
